@@ -18,6 +18,7 @@ fixes/C45-verify-block-root.diff (the block hash tree root is taken from the val
 | repair using only the verify-cap produces shares that validate under the original read-cap | `repair_uses_original_parameters` (k, N from the cap, segment size from the VALIDATED UEB — seed C45-b) + `repair_regenerates_identical_shares` (a completed repair read re-publishes exactly the original cap, UEB, trees and blocks); neither uses the read key |
 | … so the file can be read from the repaired shares alone | monitor only (needs the completeness direction: honest shares are accepted and k of them decode — C03/C36); `decide` example for the example file |
 | … and it never alters existing good shares | `repair_never_alters_good_shares` (abstract storage behaviour; refinement by the storage server is C22) |
+| a recoverable, unhealthy file gets a repair attempt, whatever the number of servers holding the good shares (seed C45-d) | `recoverable_unhealthy_repair_attempted` |
 | the post-repair results describe the grid after the repair (seed C45-c) | `post_repair_healthy_implies_N_good` |
 | count-shares-good / corrupt-share lists of `_format_results` | `healthy_iff_N_good` (count); the corrupt / incompatible lists are correspondence only (`fmt` lines) |
 | check without verification believes the servers | by definition of `ServerResult.verified` for verify=False; correspondence + monitor only |
@@ -185,6 +186,26 @@ example :
     let pre : List ServerResult := [⟨0, [0], [], [], true⟩, ⟨1, [1], [], [], true⟩, ⟨2, [], [2], [], true⟩]
     gatherRepairResults 3 4 pre [(3, 3)] = ⟨false, true, 3⟩ ∧
     gatherRepairResults 3 4 pre [(3, 3), (2, 2)] = ⟨true, true, 4⟩ := by decide
+
+/-- **recoverable_unhealthy_repair_attempted**: `_maybe_repair` starts a repair exactly when fewer than N distinct
+    good share numbers were found; in particular a file that is recoverable (≥ k distinct good shares) but not healthy
+    always gets a repair attempt, and the decision depends only on the set of good share numbers, not on the
+    servers that hold them (seed C45-d: "good share hosts < k" is not a reason to skip the repair). -/
+theorem recoverable_unhealthy_repair_attempted (k n : Nat) (rs : List ServerResult) :
+    (repairDecision k n rs = true ↔ (verifiedKeys rs).length ≠ n) ∧
+    ((formatResults k n rs).recoverable = true → (formatResults k n rs).healthy = false → repairDecision k n rs = true) ∧
+    (∀ rs', verifiedKeys rs' = verifiedKeys rs → repairDecision k n rs' = repairDecision k n rs) := by
+  refine ⟨by simp [repairDecision, formatResults], ?_, ?_⟩
+  · intro _ h; simp [repairDecision, h]
+  · intro rs' h; simp [repairDecision, formatResults, h]
+
+/-- 3-of-4 with shares 0,1,2 good, all on ONE server: recoverable, not healthy, repair attempted; the same shares
+    spread over three servers give the same decision; a healthy file gets no repair -/
+example :
+    formatResults 3 4 [⟨0, [0, 1, 2], [], [], true⟩] = ⟨false, true, 3, 0, 0⟩ ∧
+    repairDecision 3 4 [⟨0, [0, 1, 2], [], [], true⟩] = true ∧
+    repairDecision 3 4 [⟨0, [0], [], [], true⟩, ⟨1, [1], [], [], true⟩, ⟨2, [2], [], [], true⟩] = true ∧
+    repairDecision 3 4 [⟨0, [0, 1, 2, 3], [], [], true⟩] = false := by decide
 
 /-- **repair_never_alters_good_shares** (abstract storage behaviour, C22): a share a server already holds is
     reported `alreadygot`, no writer is handed out for it, a write closing onto it changes nothing, and after the
